@@ -1,6 +1,7 @@
 import SophiaModel.Basic.Proto
 import SophiaModel.Basic.Term
 import SophiaModel.Model.Pretty
+import SophiaModel.Model.StreamSer
 import SophiaModel.Model.TurtleTokens
 import SophiaModel.Gen.Regexes
 
@@ -68,7 +69,10 @@ def handle (line : String) : String :=
         -- ghost: the indentation contains a character that does not separate Turtle tokens
         let indentBad := kvB "indent_bad" (!ind.all isTurtleWs)
         if !indentAccepted ind then reply ([kvN "n" quads.length, kv "cfg" "rejected"] ++ demand)
-        else if pretty != "1" then reply ([kvN "n" quads.length, kv "cfg" "ok", kv "mode" "stream"] ++ demand)
+        else if pretty != "1" then
+          -- streaming mode: which statements reach Rio's formatter (`convert_triple`); the text is Rio's
+          let kept := if fmt == "ttl" then StreamSer.streamTriples quads else StreamSer.streamQuads quads
+          reply ([kvN "n" quads.length, kv "cfg" "ok", kv "mode" "stream", kvN "o.kept" kept.length] ++ demand)
         else
           let cfg : Cfg := ⟨pm, ind⟩
           let d := mkDataset quads
